@@ -18,6 +18,11 @@ package props
 //                 driver exactly when the pair contains an eps-match of the chosen filter parameters
 //     target, query  letters (acgt), query "-" for self comparison
 //
+//   pt <minLen> <minIdMilli> <plants> <traps> <target> <query>
+//     two sequences, forward strand only: pals.New, Optimise, then AlignFrom(traps, false) with the given
+//     trapezoids (';' separated Top:Bottom:Left:Right, ascending Bottom) instead of the filter's; every
+//     planted pair lies inside one of the trapezoids.  Observation as for pw.
+//
 // Observation
 //   err:<kind>                         Optimise/BuildIndex/Align failed
 //   P=k,n,e,off O=w,d H=<hits>         filter parameters chosen by Optimise; the float-derived inputs of its
@@ -98,10 +103,80 @@ func c15ExecOptimise(f []string) string {
 	return fmt.Sprintf("P=%d,%d,%d,%d O=%d,%d", fp.WordSize, fp.MinMatch, fp.MaxError, fp.TubeOffset, mws, sd0)
 }
 
+// pt: the aligner on a hand-made trapezoid list
+func c15ExecTraps(f []string) string {
+	minLen := hx.Atoi(f[1])
+	minID := float64(hx.Atoi(f[2])) / 1000
+	target := linear.NewSeq("t", alphabet.BytesToLetters([]byte(f[5])), alphabet.DNA)
+	query := linear.NewSeq("q", alphabet.BytesToLetters([]byte(f[6])), alphabet.DNA)
+	v := uintptr(64) << 20
+	pa := pals.New(target, query, false, nil, 0, &v, nil)
+	mws := int(util.Log4(float64(target.Len())) - util.Log4(pals.MaxAvgIndexListLen) + 0.5)
+	sd0 := int(float64(minLen) * (1 - minID))
+	if err := pa.Optimise(minLen, minID); err != nil {
+		return fmt.Sprintf("err:optimise O=%d,%d", mws, sd0)
+	}
+	var traps filter.Trapezoids
+	if f[4] != "-" {
+		for _, ts := range strings.Split(f[4], ";") {
+			x := strings.Split(ts, ":")
+			if len(x) != 4 {
+				panic("c15: bad trapezoid")
+			}
+			traps = append(traps, filter.Trapezoid{Top: hx.Atoi(x[0]), Bottom: hx.Atoi(x[1]), Left: hx.Atoi(x[2]), Right: hx.Atoi(x[3])})
+		}
+	}
+	hits, err := pa.AlignFrom(traps, false)
+	if err != nil {
+		return "err:align:" + hx.Hex([]byte(err.Error()))
+	}
+	fp := pa.FilterParams
+	var sb strings.Builder
+	fmt.Fprintf(&sb, "P=%d,%d,%d,%d O=%d,%d H=", fp.WordSize, fp.MinMatch, fp.MaxError, fp.TubeOffset, mws, sd0)
+	c15RenderHits(&sb, 0, hits, 0)
+	if len(hits) == 0 {
+		sb.WriteByte('-')
+	}
+	return sb.String()
+}
+
+// c15RenderHits appends the hits of one strand in a canonical order; n = number of hits already written
+func c15RenderHits(sb *strings.Builder, strand int, hits dp.Hits, n int) int {
+	hs := append(dp.Hits(nil), hits...)
+	sort.SliceStable(hs, func(i, j int) bool {
+		a, b := hs[i], hs[j]
+		if a.Abpos != b.Abpos {
+			return a.Abpos < b.Abpos
+		}
+		if a.Bbpos != b.Bbpos {
+			return a.Bbpos < b.Bbpos
+		}
+		if a.Aepos != b.Aepos {
+			return a.Aepos < b.Aepos
+		}
+		return a.Bepos < b.Bepos
+	})
+	for _, h := range hs {
+		if n > 0 {
+			sb.WriteByte(';')
+		}
+		n++
+		e12 := "nan"
+		if !math.IsNaN(h.Error) && !math.IsInf(h.Error, 0) {
+			e12 = fmt.Sprintf("%d", int64(math.Round(h.Error*1e12)))
+		}
+		fmt.Fprintf(sb, "%d:%d:%d:%d:%d:%d:%s:%d:%d", strand, h.Abpos, h.Aepos, h.Bbpos, h.Bepos, h.Score, e12, h.LowDiagonal, h.HighDiagonal)
+	}
+	return n
+}
+
 func c15Exec(input string) string {
 	f := hx.Fields(input)
 	if len(f) == 7 && f[0] == "po" {
 		return c15ExecOptimise(f)
+	}
+	if len(f) == 7 && f[0] == "pt" {
+		return c15ExecTraps(f)
 	}
 	if len(f) != 8 || f[0] != "pw" {
 		panic("c15: bad input")
@@ -146,31 +221,7 @@ func c15Exec(input string) string {
 		if err != nil {
 			return "err:align:" + hx.Hex([]byte(err.Error()))
 		}
-		hs := append(dp.Hits(nil), hits...)
-		sort.SliceStable(hs, func(i, j int) bool {
-			a, b := hs[i], hs[j]
-			if a.Abpos != b.Abpos {
-				return a.Abpos < b.Abpos
-			}
-			if a.Bbpos != b.Bbpos {
-				return a.Bbpos < b.Bbpos
-			}
-			if a.Aepos != b.Aepos {
-				return a.Aepos < b.Aepos
-			}
-			return a.Bepos < b.Bepos
-		})
-		for _, h := range hs {
-			if n > 0 {
-				sb.WriteByte(';')
-			}
-			n++
-			e12 := "nan"
-			if !math.IsNaN(h.Error) && !math.IsInf(h.Error, 0) {
-				e12 = fmt.Sprintf("%d", int64(math.Round(h.Error*1e12)))
-			}
-			fmt.Fprintf(&sb, "%d:%d:%d:%d:%d:%d:%s:%d:%d", strand, h.Abpos, h.Aepos, h.Bbpos, h.Bepos, h.Score, e12, h.LowDiagonal, h.HighDiagonal)
-		}
+		n = c15RenderHits(&sb, strand, hits, n)
 	}
 	if n == 0 {
 		sb.WriteByte('-')
@@ -498,6 +549,69 @@ func c15NearDiagonal(g *hx.Gen, r int) string {
 	return fmt.Sprintf("pw 1 100 %d 64 - %s -", g.Pick(700, 700, 720), string(g.Letters("acgt", L)))
 }
 
+// pt: a repeat family on hand-made narrow trapezoids.  X occurs in both sequences (diagonal dX); a second
+// target region Z consists of the last s letters of X followed by W, and the query continues X with W, so
+// the pair (Z, end of X + W) lies on another diagonal and its query rows begin inside X's.  X's diagonal carries
+// two or three trapezoids (as after a split by expiry or clipping), Z's one, which in ascending Bottom comes
+// between them: the hit found from X's first trapezoid covers X's later ones, and the aligner must still
+// align Z's.
+func c15FamilyWorkload(g *hx.Gen) string {
+	minLen := g.Pick(100, 120, 150)
+	minIDm := g.Pick(850, 900, 940)
+	Lx := g.Range(350, 600)
+	X := g.Letters("acgt", Lx)
+	W := g.Letters("acgt", g.Range(minLen+30, 250))
+	s := g.Range(minLen/2, 200)
+	if s > Lx-150 {
+		s = Lx - 150
+	}
+	Z := append(append([]byte{}, X[Lx-s:]...), W...)
+	a0, b0 := g.Range(50, 400), g.Range(50, 400)
+	j1 := g.Range(100, 400)
+	var target, query []byte
+	target = append(target, g.Letters("acgt", a0)...)
+	target = append(target, X...)
+	target = append(target, g.Letters("acgt", j1)...)
+	tZ := len(target)
+	target = append(target, Z...)
+	target = append(target, g.Letters("acgt", g.Range(50, 300))...)
+	query = append(query, g.Letters("acgt", b0)...)
+	query = append(query, X...)
+	query = append(query, W...)
+	query = append(query, g.Letters("acgt", g.Range(50, 300))...)
+	qZ := b0 + Lx - s
+	dX, dZ := b0-a0, qZ-tZ
+	type trap struct{ top, bottom, left, right int }
+	h := g.Range(1, 3)
+	var traps []trap
+	// X's first trapezoid
+	bot0 := b0 + g.Range(0, 40)
+	traps = append(traps, trap{bot0 + g.Range(30, 100), bot0, dX - h, dX + h})
+	// Z's trapezoid: starts a little after Z's first query row
+	bot1 := qZ + g.Range(0, 15)
+	traps = append(traps, trap{bot1 + g.Range(40, len(Z)-40), bot1, dZ - h, dZ + h})
+	// X's later trapezoids, inside X's rows, after bot1
+	nLater := g.Pick(0, 1, 1, 2)
+	bot := bot1
+	for i := 0; i < nLater; i++ {
+		bot += g.Range(1, 25)
+		top := bot + g.Range(20, 60)
+		if top > b0+Lx {
+			top = b0 + Lx
+		}
+		if top-bot < 16 {
+			break
+		}
+		traps = append(traps, trap{top, bot, dX - h, dX + h})
+	}
+	ts := make([]string, len(traps))
+	for i, t := range traps {
+		ts[i] = fmt.Sprintf("%d:%d:%d:%d", t.top, t.bottom, t.left, t.right)
+	}
+	plants := fmt.Sprintf("%d:%d:%d:%d:0;%d:%d:%d:%d:0", a0, Lx, b0, Lx, tZ, len(Z), qZ, len(Z))
+	return fmt.Sprintf("pt %d %d %s %s %s %s", minLen, minIDm, plants, strings.Join(ts, ";"), string(target), string(query))
+}
+
 func c15GenOptimise(g *hx.Gen) {
 	n := g.Scale(3000, 100000)
 	for i := 0; i < n && !g.Done(); i++ {
@@ -525,6 +639,10 @@ func c15Gen(g *hx.Gen) {
 	c15GenOptimise(g)
 	n := g.Scale(300, 2000)
 	for i := 0; i < n && !g.Done(); i++ {
+		if i%10 == 7 {
+			g.Case(c15FamilyWorkload(g))
+			continue
+		}
 		if i%5 == 4 {
 			res := []int{29, 30, 31, 32, 33, 0, 28, 1}
 			r := res[(i/5)%len(res)]
@@ -540,7 +658,7 @@ func c15Gen(g *hx.Gen) {
 
 func c15Shrink(input string) []string {
 	f := hx.Fields(input)
-	if len(f) != 8 {
+	if len(f) != 8 || f[0] != "pw" {
 		return nil
 	}
 	// drop the plants (soundness failures do not need them)
@@ -663,6 +781,6 @@ func palsConstFacts(repo string) (string, error) {
 }
 
 func init() {
-	hx.Register(&hx.Prop{ID: "C15", Part: "pipeline", Ops: []string{"pw", "po"}, Weight: 3, Gen: c15Gen, Exec: c15Exec, Shrink: c15Shrink, Timeout: 120 * time.Second})
+	hx.Register(&hx.Prop{ID: "C15", Part: "pipeline", Ops: []string{"pw", "po", "pt"}, Weight: 3, Gen: c15Gen, Exec: c15Exec, Shrink: c15Shrink, Timeout: 120 * time.Second})
 	hx.RegisterFacts(hx.FactGen{File: "PalsConsts.lean", Gen: palsConstFacts})
 }
